@@ -12,6 +12,7 @@ package par1
 //@ func (fileIO).ReadFile
 //@   assume-contract environment: ioutil.ReadFile / memfs
 //@   modifies nothing
+//@   ghost-set gIOFailed = gIOFailed || (result1 != nil && !isNotExist(result1))
 //@ func (fileIO).WriteFile
 //@   assume-contract environment: ioutil.WriteFile / memfs
 //@   modifies nothing
@@ -19,6 +20,7 @@ package par1
 //@   ghost-set gWritesOK = ite(result == nil, gWritesOK + 1, gWritesOK)
 //@   ghost-set gLastWriteOK = (result == nil)
 //@   ghost-set gLastWritePath = path
+//@   ghost-set gIOFailed = gIOFailed || result != nil
 
 // ---- header.go, file_entry.go, volume.go: parsers of untrusted bytes ----------
 
@@ -62,12 +64,14 @@ package par1
 //@ pred decoderOK(d) = d.fileIO != nil && d.delegate != nil
 
 //@ func newDecoder
-//@   props C13 C19 C10 C04
+//@   props C13 C19 C10 C04 C18
+//@   ensures implies(gIOFailed && !old(gIOFailed), result1 != nil)
 //@   requires fileIO != nil && delegate != nil
 //@   ensures implies(result1 == nil, result0 != nil)
 
 //@ func newDecoder$1
-//@   props C13 C19 C10 C04
+//@   props C13 C19 C10 C04 C18
+//@   ensures implies(gIOFailed && !old(gIOFailed), result1 != nil)
 //@   nilable *
 //@   requires fileIO != nil
 //@   modifies nothing
@@ -87,26 +91,31 @@ package par1
 //@   modifies nothing
 
 //@ func (*Decoder).LoadFileData
-//@   props C13 C19 C04
+//@   props C13 C19 C04 C18
+//@   ensures implies(gIOFailed && !old(gIOFailed), result != nil)
 //@   requires decoderOK(d)
 //@   loop 0
-//@     invariant d == old(d) && decoderOK(d) && (cap(fileData) == 0 || fresh(fileData))
+//@     invariant d == old(d) && decoderOK(d) && (cap(fileData) == 0 || fresh(fileData)) && gIOFailed == old(gIOFailed)
 
 //@ func (*Decoder).LoadFileData$1
-//@   props C13 C19 C04 C02
+//@   props C13 C19 C04 C02 C18
+//@   ensures implies(gIOFailed && !old(gIOFailed), result2 != nil && !result1)
 //@   nilable *
 //@   requires d != nil && decoderOK(d)
 //@   modifies nothing
 //@   ensures implies(!result1 && result2 == nil, md5(bytes(result0)) == entry.header.Hash && md5(bytes(result0[:min(len(result0), 16384)])) == entry.header.SixteenKHash)
 
 //@ func (*Decoder).LoadParityData
-//@   props C13 C19 C04
+//@   props C13 C19 C04 C18
+//@   ensures implies(gIOFailed && !old(gIOFailed), result != nil)
 //@   requires decoderOK(d)
 //@   loop 0
 //@     invariant d == old(d) && decoderOK(d) && fresh(parityData) && mathint(len(parityData)) == mathint(maxParityVolumeCount) && maxI < maxParityVolumeCount || maxParityVolumeCount == 0 && maxI == 0 && d == old(d) && decoderOK(d) && len(parityData) == 0
+//@     invariant gIOFailed == old(gIOFailed)
 
 //@ func (*Decoder).LoadParityData$1
-//@   props C13 C19 C04
+//@   props C13 C19 C04 C18
+//@   ensures implies(gIOFailed && !old(gIOFailed), result2 != nil && !isNotExist(result2))
 //@   nilable *
 //@   requires d != nil && decoderOK(d)
 //@   modifies *&shardByteCount
@@ -142,7 +151,8 @@ package par1
 // (saved) file entry and was unusable before; a path is listed only directly after its own
 // successful write, and every successful write is listed.
 //@ func (*Decoder).Repair
-//@   props C13 C19 C04 C02 C10 C14
+//@   props C13 C19 C04 C02 C10 C14 C18
+//@   ensures implies(gIOFailed && !old(gIOFailed), result1 != nil)
 //@   requires decoderOK(d) && d.shardByteCount >= 0 && d.shardByteCount <= 70368744177664
 //@   assert-call fileIO.WriteFile : mathint(len(arg1)) == mathint(entry.header.FileBytes) && md5(bytes(arg1)) == entry.header.Hash && md5(bytes(arg1[:min(len(arg1), 16384)])) == entry.header.SixteenKHash
 //@   assert-call fileIO.WriteFile : entry.header.Status % 2 == 1
@@ -154,7 +164,7 @@ package par1
 //@     invariant len(shards) == len(d.fileData) + len(d.parityData)
 //@     invariant i >= -1 && i < len(d.fileData) + 0 || i == -1
 //@     invariant cap(repairedPaths) == 0 || fresh(repairedPaths)
-//@     invariant len(repairedPaths) == gWritesOK - old(gWritesOK)
+//@     invariant len(repairedPaths) == gWritesOK - old(gWritesOK) && gIOFailed == old(gIOFailed)
 
 //@ func RepairErrorMeansRepairNecessaryButNotPossible
 //@   props C20
@@ -170,3 +180,62 @@ package par1
 //@   props C02 C18
 //@   assert-call io/ioutil.ReadFile : arg0 == path
 //@   ensures result1 == lastcall("io/ioutil.ReadFile", 1)
+
+// ---- C18: every I/O failure (other than "file does not exist" on a read) surfaces as an error ----
+
+//@ func verify
+//@   props C18
+//@   skip-safety
+//@   requires fileIO != nil
+//@   ensures implies(gIOFailed && !old(gIOFailed), result1 != nil)
+
+//@ func repair
+//@   props C18 C02
+//@   skip-safety
+//@   requires fileIO != nil
+//@   ensures implies(gIOFailed && !old(gIOFailed), result1 != nil)
+
+//@ func newEncoder
+//@   props C18
+//@   skip-safety
+//@   ensures gIOFailed == old(gIOFailed)
+//@   loop 0
+//@     invariant gIOFailed == old(gIOFailed)
+
+//@ func (*Encoder).LoadFileData
+//@   props C18
+//@   skip-safety
+//@   ensures implies(gIOFailed && !old(gIOFailed), result != nil)
+//@   loop 0
+//@     invariant gIOFailed == old(gIOFailed)
+
+//@ func (*Encoder).buildShards
+//@   props C18
+//@   skip-safety
+//@   ensures gIOFailed == old(gIOFailed)
+//@   loop 0
+//@     invariant gIOFailed == old(gIOFailed)
+//@   loop 1
+//@     invariant gIOFailed == old(gIOFailed)
+
+//@ func (*Encoder).ComputeParityData
+//@   props C18
+//@   skip-safety
+//@   ensures gIOFailed == old(gIOFailed)
+
+//@ func (*Encoder).Write
+//@   props C18 C02
+//@   skip-safety
+//@   ensures implies(gIOFailed && !old(gIOFailed), result != nil)
+//@   loop 0
+//@     invariant gIOFailed == old(gIOFailed)
+//@   loop 1
+//@     invariant gIOFailed == old(gIOFailed)
+
+//@ func create
+//@   props C18
+//@   skip-safety
+//@   requires fileIO != nil
+//@   ensures implies(gIOFailed && !old(gIOFailed), result != nil)
+//@   loop 0
+//@     invariant gIOFailed == old(gIOFailed)
